@@ -462,7 +462,14 @@ func genC20(r *hx.Rng, st *hx.Stats) c20spec {
 			nrt++
 			st.Hit("op:new-runtime")
 		case x < 74:
-			sp.Ops = append(sp.Ops, []string{fmt.Sprint(r.Intn(nrt)), "S", hs(pickName()), hs(genWord(r, valAlphabet, 0, 4))})
+			k := pickName()
+			for k == "__proto__" {
+				// Assigning to __proto__ from JavaScript is outside the claim: when no such variable exists the
+				// assignment reaches Object.prototype's accessor instead of creating one (the property speaks
+				// about which variables are shown and about isolation, not about this).
+				k = genWord(r, nameAlphabet, 1, 4)
+			}
+			sp.Ops = append(sp.Ops, []string{fmt.Sprint(r.Intn(nrt)), "S", hs(k), hs(genWord(r, valAlphabet, 0, 4))})
 			st.Hit("op:set")
 		default:
 			sp.Ops = append(sp.Ops, []string{fmt.Sprint(r.Intn(nrt)), "D", hs(pickName())})
